@@ -475,16 +475,86 @@ def _guards(mod, fn):
     return cfg, out
 
 
+def _f6_resolver(fn):
+    """source text of an expression with single-assignment locals replaced by what they stand for"""
+    vals = {}
+    counts = {}
+    for n in walk(fn):
+        if isinstance(n, ast.Assign) and len(n.targets) == 1 and isinstance(n.targets[0], ast.Name):
+            counts[n.targets[0].id] = counts.get(n.targets[0].id, 0) + 1
+            vals[n.targets[0].id] = n.value
+
+    def res(e, depth=0):
+        if isinstance(e, ast.Name) and counts.get(e.id) == 1 and depth < 3:
+            return res(vals[e.id], depth + 1)
+        if isinstance(e, ast.BinOp):
+            return '(%s %s %s)' % (res(e.left, depth), type(e.op).__name__, res(e.right, depth))
+        return src(e)
+    return res
+
+
+def _f6_cmp(e, res):
+    """(operator name, left text, right text) of a single comparison, else None"""
+    if isinstance(e, ast.Compare) and len(e.ops) == 1:
+        return type(e.ops[0]).__name__, res(e.left), res(e.comparators[0])
+    return None
+
+
+def _m_size_zero(role):
+    def m(e, res, r):
+        c = _f6_cmp(e, res)
+        if c and c[1] == '%s.num_leaves' % r[role] and c[2] == '0' and c[0] in ('Eq', 'NotEq', 'LtE', 'Gt', 'Lt', 'GtE'):
+            return {'Eq': True, 'LtE': True, 'NotEq': False, 'Gt': False}.get(c[0])
+        if c and c[1] == '%s.num_leaves' % r[role] and c[2] == '1' and c[0] in ('Lt', 'GtE'):
+            return c[0] == 'Lt'
+        # `not size`: the CFG has already turned `not x` round, so a bare size atom is "non-zero"
+        if not isinstance(e, ast.Compare) and res(e) == '%s.num_leaves' % r[role]:
+            return False
+        return None
+    return m
+
+
+def _m_attr_differs(attr):
+    def m(e, res, r):
+        c = _f6_cmp(e, res)
+        both = {'%s.%s' % (r['outer'], attr), '%s.%s' % (r['inner'], attr)}
+        if c and {c[1], c[2]} == both and c[0] in ('NotEq', 'Eq', 'IsNot', 'Is'):
+            return c[0] in ('NotEq', 'IsNot')
+        return None
+    return m
+
+
+def _conditional(m):
+    def m2(e, res, r):
+        return m(e, res, r)
+    m2.conditional = True
+    return m2
+
+
+def _m_leaf_product(e, res, r):
+    c = _f6_cmp(e, res)
+    if not c or c[0] not in ('NotEq', 'Eq'):
+        return None
+    a, b = '%s.num_leaves' % r['outer'], '%s.num_leaves' % r['inner']
+    prods = {'(%s Mult %s)' % (a, b), '(%s Mult %s)' % (b, a)}
+    if (c[1] in prods and c[2].endswith('num_leaves')) or (c[2] in prods and c[1].endswith('num_leaves')):
+        return c[0] == 'NotEq'
+    return None
+
+
+# rejection id -> (matcher(atom, resolver, roles) -> the outcome of the atom on which the call is
+# rejected, or None when the atom is not this test; exception)
 F6_TABLE = {
     'tree_transpose': [
-        ('none_is_leaf-equal', lambda t, r: 'none_is_leaf' in t and '!=' in t, 'ValueError'),
-        ('non-empty', lambda t, r: re.search(r'== 0', t) is not None, 'ValueError'),
-        ('namespace-compatible', lambda t, r: 'namespace' in t and '!=' in t, 'ValueError'),
-        ('leaf-count-product', lambda t, r: 'num_leaves' in t and '*' in t, 'TypeError'),
+        ('none_is_leaf-equal', [_m_attr_differs('none_is_leaf')], 'ValueError'),
+        ('non-empty', [_m_size_zero('outer'), _m_size_zero('inner')], 'ValueError'),
+        # (tested only when both treespecs carry a namespace: no dominance asked of this atom)
+        ('namespace-compatible', [_conditional(_m_attr_differs('namespace'))], 'ValueError'),
+        ('leaf-count-product', [_m_leaf_product], 'TypeError'),
     ],
     'tree_transpose_map': [
-        ('outer-non-empty', lambda t, r: '%s.num_leaves == 0' % r['outer'] in t, 'ValueError'),
-        ('inner-non-empty', lambda t, r: '%s.num_leaves == 0' % r['inner'] in t, 'ValueError'),
+        ('outer-non-empty', [_m_size_zero('outer')], 'ValueError'),
+        ('inner-non-empty', [_m_size_zero('inner')], 'ValueError'),
     ],
 }
 F6_TABLE['tree_transpose_map_with_path'] = F6_TABLE['tree_transpose_map']
@@ -522,23 +592,38 @@ def f6(ctx):
         rn = cfg.node_of(rets[0])
         roles = _transpose_roles(fn)
         ctx.require(roles is not None, '%s: outer / inner treespec not recognised' % name)
-        for gid, pred, exc in table:
-            hit = [(s, e) for s, e in guards if pred(src(s.test), roles)]
-            ok = False
-            why = 'no such rejection'
-            for s, e in hit:
-                conds = [cfg.node_of(x) for x in walk(s.test)]
-                conds = [c for c in conds if c is not None and cfg.nodes[c].kind == 'cond']
-                # the rejection precedes the work: the return is only reachable through the
-                # non-raising edges of the condition
-                cut = set(conds)
-                if e == exc and conds and all(cfg.dominates(c, rn) for c in conds[:1]):
-                    ok = True
-                else:
-                    why = 'raises %s, expected %s, or does not dominate the return' % (e, exc)
-            ctx.check('%s/%s' % (name, gid), ok,
-                      '%s: rejection `%s` (%s) dominates the result' % (name, gid, exc),
-                      '%s: rejection `%s`: %s' % (name, gid, why), mod.loc(fn))
+        res = _f6_resolver(fn)
+        raises = {}
+        for n_ in cfg.nodes:
+            if n_.kind == 'raise' and isinstance(n_.ast, ast.Raise) and n_.ast.exc is not None:
+                x_ = n_.ast.exc
+                raises[n_.idx] = call_name(x_) if isinstance(x_, ast.Call) else dotted(x_)
+        for gid, matchers, exc in table:
+            problems = []
+            for mi, m_ in enumerate(matchers):
+                found = False
+                for cn in cfg.nodes:
+                    if cn.kind != 'cond' or cn.ast is None or not isinstance(cn.ast, ast.expr):
+                        continue
+                    pol = m_(cn.ast, res, roles)
+                    if pol is None:
+                        continue
+                    found = True
+                    bad_edge = [w for (w, lab) in cfg.succ[cn.idx] if lab is pol]
+                    reach = cfg.reachable(bad_edge, skip_back=False)
+                    if not getattr(m_, 'conditional', False) and not cfg.dominates(cn.idx, rn):
+                        problems.append('`%s` is not tested on every path to the result' % src(cn.ast))
+                    elif rn in reach:
+                        problems.append('the outcome of `%s` that must be rejected reaches the result'
+                                        % src(cn.ast))
+                    elif not any(raises.get(x_) == exc for x_ in reach):
+                        problems.append('the rejected outcome of `%s` does not raise %s' % (src(cn.ast), exc))
+                if not found:
+                    problems.append('no such test (part %d of %d)' % (mi + 1, len(matchers)))
+            ctx.check('%s/%s' % (name, gid), not problems,
+                      '%s: rejection `%s` (%s) is taken on exactly the documented outcome and '
+                      'dominates the result' % (name, gid, exc),
+                      '%s: rejection `%s`: %s' % (name, gid, '; '.join(problems)), mod.loc(fn))
     # the input is flattened with the flags of the two treespecs: none_is_leaf of the outer one
     # (they were just checked to be equal) and the namespace of whichever treespec carries one
     fn = mod.func('tree_transpose')
@@ -1354,3 +1439,48 @@ def a7(ctx):
                           '%s: `%s` %s writes into %s: an in-place change of something the caller owns'
                           % (q, src(recv)[:40], what, verdict), mod.loc(node))
     ctx.analysed['python_mutation_sites'] = sites
+
+
+OPTION_DEFAULTS = {'none_is_leaf': False, 'namespace': '', 'is_leaf': None}
+
+
+@rule('F14', floor=60, title='the traversal options have the documented defaults at every public entry point')
+def f14(ctx):
+    """`none_is_leaf=False`, `namespace=''`, `is_leaf=None` are part of the documented behaviour of
+    every entry point (the properties are stated for calls that leave them out).  A default that
+    differs at one entry point makes that entry point disagree with its siblings for the same
+    call.  Checked on every function of the public modules that has such a parameter, and on the
+    engine's binding table."""
+    pkg = ctx.py()
+    n = 0
+    for mname in ('optree.ops', 'optree.registry', 'optree.dataclasses', 'optree.functools',
+                  'optree.integration.numpy', 'optree.integration.jax', 'optree.integration.torch'):
+        try:
+            mod = pkg.mod(mname)
+        except Exception:
+            continue
+        for q, fn in sorted(mod.funcs.items()):
+            a = fn.args
+            pos = a.posonlyargs + a.args
+            pairs = list(zip(pos[len(pos) - len(a.defaults):], a.defaults)) + \
+                [(x, d) for x, d in zip(a.kwonlyargs, a.kw_defaults) if d is not None]
+            for arg, d in pairs:
+                if arg.arg not in OPTION_DEFAULTS:
+                    continue
+                n += 1
+                want = OPTION_DEFAULTS[arg.arg]
+                # registry functions use a sentinel / None for "no namespace given": listed, not judged
+                if not isinstance(d, ast.Constant):
+                    ctx.info('%s.%s/%s' % (mname.split('.')[-1], q, arg.arg),
+                             '%s: default of %s is the expression `%s`' % (q, arg.arg, src(d)), mod.loc(fn))
+                    continue
+                if mname != 'optree.ops' and arg.arg == 'namespace' and d.value is None:
+                    ctx.info('%s.%s/%s' % (mname.split('.')[-1], q, arg.arg),
+                             '%s: namespace defaults to None (resolved inside)' % q, mod.loc(fn))
+                    continue
+                ctx.check('%s.%s/%s' % (mname.split('.')[-1], q, arg.arg), d.value == want and
+                          type(d.value) is type(want),
+                          '%s: %s defaults to %r' % (q, arg.arg, want),
+                          '%s: %s defaults to %r, every other entry point uses %r: the same call '
+                          'behaves differently here' % (q, arg.arg, d.value, want), mod.loc(fn))
+    ctx.analysed['option_defaults'] = n
